@@ -19,7 +19,7 @@ from . import common
 
 ID = 'C03'
 LEVEL = 'exploration'
-RUNS = {'quick': 6000, 'thorough': 150000}
+RUNS = {'quick': 30000, 'thorough': 200000}
 SIM_TIME_UNIT = 'samples'
 RULE = ('seeded generation of (bounded-future specification, unit notation of every bound, sampling period/unit, trace of '
         'h+1..h+10 samples); every i >= h is a checked history; non-trivial = expected delayed output finite somewhere and not '
@@ -72,6 +72,11 @@ def _gen(rng, tier):
         # second-long bounds at millisecond sampling: one or two windows of 64-100 samples, horizon below 250 samples
         cfg.max_bound = rng.choice([64, 70, 100])
         cfg.hi_min = 60
+        cfg.max_depth = 2
+    medium_windows = (not long_windows) and rng.random() < 0.08
+    if medium_windows:
+        cfg.max_bound = rng.choice([9, 12, 16])
+        cfg.hi_min = 9
         cfg.max_depth = 2
     ast = sg.gen_formula(rng, cfg)
     if long_windows and sg.horizon(ast) > 250:
@@ -141,7 +146,7 @@ def _gen(rng, tier):
         text = 'out = ' + sg.to_text(ast, sg.Spelling(rng), units.bounds_printer(notation, rng)) + ';'
     ex = common.warmup_extra(ast)
     n = int(h) + (int(ex) if ex != float('inf') else 0) + rng.randint(1, 16 if big else 10) if h != float('inf') else 5
-    data = world.gen_trace(rng, vars_, n)
+    data = world.gen_trace(rng, vars_, n, style=('plateau' if medium_windows and rng.random() < 0.6 else None))
     return {'vars': vars_, 'ast': ast, 'text': text, 'subspecs': subspecs, 'n': n, 'data': data, 'notation': notation,
             'times': units.stamps(notation, n)}
 
